@@ -192,11 +192,16 @@ func (c *Collection) postEvent(event *sgbucket.FeedEvent) {
 
 // stops all feeds. Caller MUST hold the bucket's lock.
 func (c *Collection) _stopFeeds() {
-	for _, feed := range c.bucket.collectionFeeds[c.DataStoreNameImpl] {
+	c.bucket._stopFeedsOf(c.DataStoreNameImpl)
+}
+
+// stops the feeds of one collection, whichever handle started them. Caller MUST hold the bucket's lock.
+func (bucket *Bucket) _stopFeedsOf(name sgbucket.DataStoreNameImpl) {
+	for _, feed := range bucket.collectionFeeds[name] {
 		feed.close()
 	}
 	// The map is shared by every handle of the bucket: remove only this collection's feeds.
-	delete(c.bucket.collectionFeeds, c.DataStoreNameImpl)
+	delete(bucket.collectionFeeds, name)
 }
 
 //////// DCPFEED:
